@@ -10,6 +10,7 @@ import SeliumModel.Lemmas.PubSubHealthy
 import SeliumModel.Lemmas.ReqRepMore
 import SeliumModel.Lemmas.ReqRepCause
 import SeliumModel.Lemmas.ReqRepQuietDrop
+import SeliumModel.Lemmas.ReqRepQuietDropC
 
 namespace Selium.Route
 open Selium.Sink
@@ -119,6 +120,14 @@ theorem c08_dropped_replier_is_never_called_again (history : List REvent) (pre p
     (h : (rrExec history).trace = pre ++ REv.v n (.dropped k) :: post) : ∀ e ∈ post, ∀ x, e ≠ REv.v n x :=
   nothing_after_the_drop history pre post n k h
 
+/-- The same for the requestor side: once the `Router` has evicted a requestor's sink (it failed at readiness, at a flush,
+    or refused a reply) nothing in the rest of the trace asks anything of that sink — no readiness, send, flush or close —
+    for every history, whatever order the `HashMap` is iterated in (invariant `SInv`: client ids are unique and below the
+    next id, every sink held is unevicted; each `Router` operation visits an entry once: `pickLoop_quiet`). -/
+theorem c08_evicted_requestor_sink_is_never_called_again (history : List REvent) (pre post : List REv) (k : Nat)
+    (h : (rrExec history).trace = pre ++ REv.c (.dropped k) :: post) : ∀ e ∈ post, ∀ b, vc e ≠ some (k, b) :=
+  nothing_after_the_eviction history pre post k h
+
 /-- … and the drop follows the failure at once: in block A a readiness error of the bound replier's sink is the event right
     before its `dropped` -/
 example (s : RR) (f : RFrame) (r : Replier) (hf : s.bufReq = some f) (hr : s.server = some r) (he : r.sink.readyAns = .err) :
@@ -136,6 +145,7 @@ example : ((rrExec exDrops).trace.any fun e => match e with | .v 0 (.dropped 0) 
 end Selium.Route
 
 #print axioms Selium.Route.c08_dropped_replier_is_never_called_again
+#print axioms Selium.Route.c08_evicted_requestor_sink_is_never_called_again
 #print axioms Selium.Route.c08_replier_dropped_only_for_cause
 #print axioms Selium.Route.c08_requestor_dropped_only_when_its_own_sink_failed
 #print axioms Selium.Route.c08_fanout_poll_keeps_only_old
